@@ -358,6 +358,40 @@ def add_bridge(rng, desc):
     desc.setdefault("_build", {})["bridge"] = {"child": c["name"], "slot": rng.randrange(len(c["parents"]))}
 
 
+def zero_vs_omitted(rng):
+    """A small phased system in which two phases differ ONLY in that a load with a non-zero sleep value is switched to an explicit 0 in the
+    one and is left out of its table in the other (so it runs on its sleep value there): "0 in this phase" and "not listed" are different things.
+    Every other component has the same configuration in both phases (none, or a list that names both / neither)."""
+    v = sd(rng, 2.5, 24)
+    comps = [{"name": "S1", "kind": "source", "args": {"vo": v, **({"rs": sd(rng, 1e-3, 0.2)} if rng.random() < 0.5 else {})}, "parents": []}]
+    par = "S1"
+    if rng.random() < 0.7:
+        k = rng.choice(["linreg", "converter", "pswitch", "rloss"])
+        a = {"linreg": {"vo": float("%.3g" % (0.6 * v))}, "converter": {"vo": float("%.3g" % (0.5 * v)), "eff": sd(rng, 0.6, 0.95)},
+             "pswitch": {"rs": sd(rng, 1e-3, 0.1)}, "rloss": {"rs": sd(rng, 1e-3, 0.1)}}[k]
+        comps.append({"name": "X1", "kind": k, "args": a, "parents": ["S1"]})
+        par = "X1"
+    names = rng.sample(["ship", "sleep", "run", "tx", "idle"], rng.randint(2, 4))
+    pa, pb = rng.sample(names, 2)
+    nl = rng.randint(1, 3)
+    for j in range(nl):
+        if rng.random() < 0.5:
+            c = {"name": "L%d" % j, "kind": "iload", "args": {"ii": sd(rng, 1e-3, 0.2), "iis": sd(rng, 1e-6, 1e-3)}, "parents": [par]}
+            val = lambda: sd(rng, 1e-3, 0.2)       # noqa
+        else:
+            c = {"name": "L%d" % j, "kind": "pload", "args": {"pwr": sd(rng, 1e-2, 1.0), "pwrs": sd(rng, 1e-6, 1e-3)}, "parents": [par]}
+            val = lambda: sd(rng, 1e-2, 1.0)       # noqa
+        pc = {p: val() for p in names if p not in (pa, pb) and rng.random() < 0.7}
+        if j == 0 or rng.random() < 0.5:
+            pc[pa] = rng.choice([0.0, 0])          # explicit zero in pa, absent in pb
+        c["pconf"] = pc
+        comps.append(c)
+    if len(comps) > 2 and rng.random() < 0.4 and comps[1]["kind"] != "rloss":
+        comps[1]["pconf"] = [p for p in names if p in (pa, pb) or rng.random() < 0.5]       # active in both
+    phases = {p: sd(rng, 1.0, 1e4) for p in names}
+    return {"name": "sys", "comps": comps, "phases": phases, "_build": {"phase_order": "normal"}}
+
+
 ODD_NAMES = ["Subsystem aux", "Subsystem 1", "Subsystem", "System totals", "System", "Average", "3V3 rail", "a.b", "x y", " lead", "1", "1.5",
              "1e3", "-5", "α", "ΩLoad", "Load (3.3V)", "ld#1", "a/b", "tx{burst}", "100%", "it's", "Source", "PMux", "Parent", "Component"]
 
